@@ -1,4 +1,5 @@
 """C02: decided on operation histories (see DESIGN.md section 7 for what is compared and proved)."""
+from . import _multi
 from ._store import replay_store, run_store
 
 QUICK = [('general', 110), ('import', 30)]
@@ -6,8 +7,12 @@ THOROUGH = [('general', 1500), ('import', 300), ('delete', 300)]
 
 
 def run(tier: str):
-    return run_store('C02', tier, QUICK, THOROUGH)
+    rep = run_store('C02', tier, QUICK, THOROUGH)
+    # the same views asked through several handles on one container (any handle must answer like the map)
+    rep.failures += _multi.stale_handle_failures('C02', 40 if tier == 'quick' else 500, ('has-', 'get-', 'meta-', 'bulk', 'list-', 'add-key'), rep)
+    return rep
 
 
 def replay(path: str) -> int:
-    return replay_store('C02', path)
+    r_ = _multi.replay_multi('C02', path)
+    return r_ if r_ is not None else replay_store('C02', path)
